@@ -20,3 +20,5 @@ def run(col, configs, tier):
         guarded(col, X.rule_grammar_guards, facts)
         guarded(col, X.rule_pattern_before_input, facts)
         guarded(col, X.rule_empty_number_exit, facts)
+        guarded(col, X.rule_required_sign_enforced, facts)
+        guarded(col, X.rule_empty_component_counts_digits, facts)
